@@ -2,5 +2,5 @@
 EXTENDS FlwCleanQ, Json
 View == <<plain, gz, nrot, chan, cst, snap, zs, app>>
 Done == app = "down" /\ nrot = NRot
-Emit == (GenHist /\ Done) => PrintT(<<"REPLAY", ToJson([cfg |-> [k |-> K, m |-> M], steps |-> hist])>>)
+Emit == (GenHist /\ Done) => PrintT(<<"REPLAY", ToJson([cfg |-> [k |-> K, m |-> M, direct |-> Direct], steps |-> hist])>>)
 =============================================================================
